@@ -145,6 +145,46 @@ func (r *rig) checkSnapshot(s *Snap, limitsAfterRun bool) []violation {
 			fail("pnonce:"+dir+"-state-nonce-when-empty", "account %d has no pending transaction, pendingNonces=%d, state nonce %d", i, raw.PendingNonce[i], raw.StateNonce[i])
 		}
 	}
+	// --- queue: every queued transaction payable too (validateTx on entry, promoteExecutables'
+	// Filter on every reset; the chain state only changes at a reset)
+	for _, l := range raw.Queue {
+		_, bal, _, ok := state(l.Addr)
+		if !ok {
+			continue
+		}
+		curAcct = idx[l.Addr]
+		for _, t := range l.Txs {
+			if t.Cost().Cmp(bal) > 0 {
+				fail("queue:unaffordable", "account %d: queued nonce %d costs %s, balance %s", idx[l.Addr], t.Nonce(), t.Cost(), bal)
+				break
+			}
+			if t.Gas() > raw.MaxGas {
+				fail("queue:gas-above-block-limit", "account %d: queued nonce %d gas %d, block limit %d", idx[l.Addr], t.Nonce(), t.Gas(), raw.MaxGas)
+				break
+			}
+		}
+	}
+	curAcct = -1
+	// --- txList cache: costcap / gascap are upper bounds of the list (what makes the short
+	// circuit of txList.Filter sound)
+	for _, c := range s.caps {
+		side := "queue"
+		if c.Pending {
+			side = "pending"
+		}
+		for _, t := range c.Txs {
+			if t.Cost().Cmp(c.CostCap) > 0 {
+				fail("cache:costcap-below-list-cost:"+side, "%s list of %x: costcap %s, nonce %d costs %s", side, c.Addr, c.CostCap, t.Nonce(), t.Cost())
+				break
+			}
+		}
+		for _, t := range c.Txs {
+			if t.Gas() > c.GasCap {
+				fail("cache:gascap-below-list-gas:"+side, "%s list of %x: gascap %d, nonce %d uses gas %d", side, c.Addr, c.GasCap, t.Nonce(), t.Gas())
+				break
+			}
+		}
+	}
 	// --- all == union of the lists; slots
 	allSet := map[common.Hash]bool{}
 	for _, part := range [][]*types.Transaction{raw.AllLocals, raw.AllRemotes} {
